@@ -43,6 +43,7 @@ class Flight:
         self.alt = 1000 + 25 * rng.below(1500)
         self.tc = rng.choice([9, 11, 13, 18, 20, 22])
         self.odd = rng.below(2)
+        self.climb = 0          # ft per position report (set by scenarios that want the even and the odd report of a pair to carry different altitudes)
         # one flight in three heads straight away from the receiver at 2 - 4.5 km per report (inside what CPR pairing tolerates), so that a
         # published aircraft crosses the range limit while every step is far below the jump limit
         self.drift = None
@@ -83,6 +84,7 @@ class Flight:
         # altitude field: mostly the flight's altitude; sometimes "no altitude" (all-zero field), a Q=1 value at or below 0 ft, an illegal
         # Gillham code or another level, so that records with a position but without an altitude in one or both slots occur
         r = rng.below(16) if not self.plain else 0
+        if self.climb: self.alt = max(1000, min(45000, self.alt + self.climb))
         a12 = alt12_of_feet(self.alt) if r < 11 else (0 if r < 13 else rng.choice([0x010, 0x017, 0x00a, 0x9e0, alt12_of_feet(self.alt + 2500)]))
         return self.frame(me_position(self.tc, a12, odd, yz, xz))
 
@@ -174,7 +176,7 @@ def wrap_history(rng):
     ops.append("T dump")
     return ops
 
-def history(rng, n_ops, n_planes=4, with_time=True, rx=None, rng_range=None, addrs=None):
+def history(rng, n_ops, n_planes=4, with_time=True, rx=None, rng_range=None, addrs=None, dfs=None):
     rx = rx or rng.choice([(39.0, -77.0), (52.3, 4.8), (-33.9, 151.2), (69.7, 19.0), (0.5, 179.5), (64.1, -21.9)])
     rng_range = rng_range or rng.choice([500, 500, 300, 150, 1000, 800, 1500])
     ops = ["T reset %s %s %s" % (rx[0], rx[1], rng_range)]
@@ -183,6 +185,8 @@ def history(rng, n_ops, n_planes=4, with_time=True, rx=None, rng_range=None, add
     flights = [Flight(rng, rng.choice(special) if rng.chance(1, 8) else (rng.bits(24) if not rng.chance(1, 6) else (0xABC000 + i)), rx, df=18 if rng.chance(1, 5) else 17) for i in range(n_planes)]
     if addrs:
         for f, a in zip(flights, addrs): f.icao = a
+    if dfs:
+        for f, d in zip(flights, dfs): f.df = d
     seen = set()
     for f in flights:
         while f.icao in seen: f.icao = rng.bits(24)
